@@ -335,6 +335,9 @@ func forkchoiceComponent() *Component {
 		},
 		"SetPin": func(r *Rng, t int, inst *Instance, lin bool) Op {
 			b := uint64(1 + r.Intn(4))
+			if r.Chance(25) {
+				b = 777 // unknown root: the error path
+			}
 			return Op{"SetPin", fmt.Sprintf("(%d)", b), func(in *Instance) string { return errStr(in.fc.SetPin(rootOf(b), fcSlotOf(b))) }}
 		},
 		"UpdateJustified": func(r *Rng, t int, inst *Instance, lin bool) Op {
